@@ -16,6 +16,7 @@ C11 (injectivity) and C12 (invariance) are statements about this tree; that equa
 trivial, that different trees give different digests is the `sha512`/`str` assumption of C11.
 -/
 import UflVerif.Model.Order
+import UflVerif.Model.FormModel
 
 namespace UflVerif
 
@@ -31,6 +32,7 @@ structure MeshD where
 structure SpaceD where
   mesh : MeshD
   elem : String          -- repr of the element
+  label : String := ""   -- `FunctionSpace(..., label=...)` (a str): part of the signature data, not of the repr
   deriving DecidableEq, Repr, Inhabited
 
 inductive CTerm
@@ -230,7 +232,7 @@ structure CIntegral where
   itype : String                       -- "cell", "exterior_facet", ...
   mesh : MeshD                         -- integral.ufl_domain()
   sub : SubId
-  metadata : List (String × String)    -- metadata items with str values (what canonicalize_metadata keeps)
+  metadata : FormModel.Canon           -- `canonicalize_metadata(integral.metadata())`: nested tuples of str (Model/FormModel.lean)
   deriving Repr, Inhabited
 
 abbrev CForm := List CIntegral
@@ -386,7 +388,7 @@ def sigMesh (env : Env) (m : MeshD) : SigData :=
   .tup [.str "Mesh", num (posOf eqMesh m env.mesh), .raw m.celem]
 
 def sigSpace (env : Env) (sp : SpaceD) : SigData :=
-  .tup [.str "FunctionSpace", sigMesh env sp.mesh, .str sp.elem, .str ""]
+  .tup [.str "FunctionSpace", sigMesh env sp.mesh, .str sp.elem, .str sp.label]
 
 def sigIdx (env : Env) : Idx → SigData
   | .fixed v => .int v
@@ -398,7 +400,7 @@ def sigIdx (env : Env) : Idx → SigData
 def sigTerm (env : Env) : CTerm → SigData
   | .coeff c sp sh => .tup [.str "Coefficient", num (posOf eqTerm (.coeff c sp sh) env.coeff), sigSpace env sp]
   | .arg n p sp _ => .tup [.str "Argument", .int n, (if p < 0 then .none else .int p), sigSpace env sp]
-  | .const c m sh => .fmt [.raw "Constant(", sigMesh env m, .raw ", ", .raw (Expr.pyTuple sh), .raw ", ",
+  | .const c m sh => .fmt [.raw "Constant(", sigMesh env m, .raw ", ", natsTup sh, .raw ", ",      -- `{shape!r}`: printed as a tuple
       num (posOf eqTerm (.const c m sh) env.const), .raw ")"]
   | .geo c m _ => .tup [.str c, .str "Mesh", num (posOf eqMesh m env.mesh), .raw m.celem]
   | .label c => .tup [.str "Label", num (posOf eqTerm (.label c) env.label)]
@@ -428,7 +430,20 @@ def sigSub : SubId → SigData
   | .str s => .str s
   | .tup xs => .tup (xs.map .int)
 
-def sigMeta (md : List (String × String)) : SigData := .tup (md.map fun p => .tup [.str p.1, .str p.2])
+mutual
+/-- the canonicalised metadata is printed as it is: nested tuples of str -/
+def sigCanon : FormModel.Canon → SigData
+  | .s x => .str x
+  | .t items => .tup (sigCanonL items)
+def sigCanonL : List FormModel.Canon → List SigData
+  | [] => []
+  | a :: as => sigCanon a :: sigCanonL as
+end
+
+def sigMeta (md : FormModel.Canon) : SigData := sigCanon md
+
+/-- a flat dict with str values, keys already sorted -/
+def flatMeta (kv : List (String × String)) : FormModel.Canon := .t (kv.map fun p => .t [.s p.1, .s p.2])
 
 def sigIntegral (env : Env) (i : CIntegral) : SigData :=
   .tup [sigE env i.integrand, sigMesh env i.mesh, .str i.itype, .tup [], sigSub i.sub, sigMeta i.metadata]
